@@ -72,9 +72,14 @@ def sizes(draw):
 
 @st.composite
 def angle_sets(draw):
-    dtype = draw(st.sampled_from(["float32", "float64"]))
+    # dtype of the theta tensor: float32 / float64 (arbitrary angles) or an integer tensor, as
+    # torch.arange gives and as the default theta of radon_torch is (whole degrees by construction)
+    dtype = draw(st.sampled_from(["float32", "float32", "float32", "float64", "float64"] + ref.INT_THETA_DTYPES))
     special = st.sampled_from([0.0, 90.0, 180.0, 45.0, 135.0, 1.0, 179.0, 89.0, 91.0])
-    generic = st.floats(0.0, 180.0, allow_nan=False, width=32 if dtype == "float32" else 64)
+    if dtype in ref.INT_THETA_DTYPES:
+        generic = st.integers(0, 180).map(float)
+    else:
+        generic = st.floats(0.0, 180.0, allow_nan=False, width=32 if dtype == "float32" else 64)
     angles = draw(st.lists(st.one_of(special, generic), min_size=1, max_size=12))
     return dtype, [float(a) for a in angles]
 
@@ -145,6 +150,9 @@ def iradon_cases(draw):
         "N": N,
         "theta_dtype": dtype,
         "angles": angles,
+        # dtype of the sinogram tensor, drawn independently of the theta dtype (mixed arguments):
+        # float32 half of the time, else float64 or integer detector counts
+        "sino_dtype": draw(st.sampled_from(["float32"] * 5 + ["float64"] + ref.INT_SINO_DTYPES)),
         "filter": draw(st.sampled_from(ref.FILTERS)),
         # circle=True is the mode radon_torch produces sinograms for; circle=False is the other
         # value the SIRT caller forwards (1 case in 5)
@@ -349,12 +357,18 @@ def _check_iradon(ctx, case):
     A = len(th64)
     circle = bool(case["circle"])
     fname = case["filter"]
-    sinos = [ref.build_sinogram(s, A, N, th64) for s in case["sinos"]]
+    sdt = case.get("sino_dtype", "float32")
+    sinos = [ref.build_sinogram(s, A, N, th64, sdt) for s in case["sinos"]]
     B = len(sinos)
     special, cl = _angle_classes(th64)
     plain = all(s["type"] == "radon" and s["img"]["type"] == "smooth" for s in case["sinos"])
     classes = ["kind:iradon", "N:even" if N % 2 == 0 else "N:odd", "B:%d" % B, "theta:" + case["theta_dtype"]] + cl
-    classes += ["filter:%s" % fname, "circle:%s" % circle]
+    classes += ["filter:%s" % fname, "circle:%s" % circle, "sino_dtype:" + sdt]
+    fractional = bool(np.any(th64 != np.trunc(th64)))
+    if sdt != case["theta_dtype"]:
+        classes.append("dtype_mix:sinogram!=theta")
+    if sdt in ref.INT_SINO_DTYPES and fractional:
+        classes.append("dtype_mix:integer_sinogram+fractional_angles")
     classes += sorted({"sinogram:" + s["type"] for s in case["sinos"]})
     out_size = N if circle else int(np.floor(np.sqrt(N**2 / 2.0)))
     large = bool(case.get("large"))
@@ -375,7 +389,7 @@ def _check_iradon(ctx, case):
     singles = []
     for i, s in enumerate(sinos):
         want = ref.ref_iradon(s, th64, fname, circle)
-        scale = EPS32 * (N + 8) * float(np.abs(s).max())
+        scale = EPS32 * (N + 8) * float(np.abs(s.astype(np.float64)).max())
         worst = max(
             worst,
             _judge(ctx, case, out[i], want, scale, K_IRADON, "iradon_torch vs skimage.iradon (filter %r, circle=%s, sinogram %d of the batch)" % (fname, circle, i), "iradon" + sfx, skip),
@@ -390,14 +404,16 @@ def _check_iradon(ctx, case):
         target(min(worst / K_IRADON, 2.0), label="iradon err/tol")
         return
     a, b = float(case["lin"]["a"]), float(case["lin"]["b"])
-    y = ref.build_sinogram(case["lin"]["sino"], A, N, th64)
+    # the partner has the dtype of the batch; the combination is always handed over as float32
+    # (a x + b y is in general not representable in an integer dtype)
+    y = ref.build_sinogram(case["lin"]["sino"], A, N, th64, sdt)
     z = (a * sinos[0].astype(np.float64) + b * y.astype(np.float64)).astype(np.float32)
     with ctx.sut(case, "iradon_torch(linear combination)"):
         Iy = _np(rr.iradon_torch(torch.from_numpy(y.copy()), theta=th, filter_name=fname, circle=circle))
         Iz = _np(rr.iradon_torch(torch.from_numpy(z.copy()), theta=th, filter_name=fname, circle=circle))
     Iy = _shape(case, Iy, (out_size, out_size), "iradon_torch(2-D sinogram)", squeeze_ok=False)
     Iz = _shape(case, Iz, (out_size, out_size), "iradon_torch(2-D sinogram)", squeeze_ok=False)
-    scale = EPS32 * (N + 8) * (abs(a) * float(np.abs(sinos[0]).max()) + abs(b) * float(np.abs(y).max()))
+    scale = EPS32 * (N + 8) * (abs(a) * float(np.abs(sinos[0].astype(np.float64)).max()) + abs(b) * float(np.abs(y.astype(np.float64)).max()))
     _judge(ctx, case, Iz, a * singles[0] + b * Iy, scale, 2 * K_IRADON, "iradon_torch linearity I(a s + b u) vs a I(s) + b I(u), a=%r b=%r" % (a, b), "iradon_linearity", skip)
     target(min(worst / K_IRADON, 2.0), label="iradon err/tol")
 
